@@ -31,8 +31,11 @@ def strategy(tier):
     return st.tuples(gen.tiered(tier, max_ops=12, rejects=False, kinds=KINDS), GATTR).map(lambda x: dict(x[0], gattr=x[1]))
 
 
+_zero_factory = lambda: 0     # a module-level lambda: deep-copyable (by reference), not picklable
+
+
 def mutate_nested(x):
-    """Mutate every mutable value reachable from x in place."""
+    """Mutate every mutable value reachable from x in place (through tuples as well)."""
     if isinstance(x, dict):
         for v in list(x.values()):
             mutate_nested(v)
@@ -41,10 +44,15 @@ def mutate_nested(x):
         for v in x:
             mutate_nested(v)
         x.append('__mutated__')
+    elif isinstance(x, tuple):
+        for v in x:
+            mutate_nested(v)
+    elif isinstance(x, set):
+        x.add('__mutated__')
 
 
 def has_nested(x):
-    return isinstance(x, (dict, list))
+    return isinstance(x, (dict, list, tuple, set))
 
 
 def check_arcs(rec, sub, H, exp_runs, u, v, probes, ctx, known=None, known_ok=None):
@@ -68,6 +76,20 @@ def run_case(case, rec):
             return False
     G, M = d.G, d.M
     G.graph.update(copy.deepcopy(case.get('gattr', {})))
+    # attribute values are arbitrary Python objects: a tuple holding a list, a set inside a dict, and (every
+    # third case) a value that can be deep-copied but not pickled
+    if M.nodes:
+        import collections
+        ns = list(M.nodes)
+        extra = {'route': ('depot', ['a', 'b']), 'tags': {'s': {1, 2}}}
+        if len(case['ops']) % 3 == 0:
+            extra['counts'] = collections.defaultdict(_zero_factory)
+            extra['counts']['seen'] = [1]
+        G.add_node(ns[0], **copy.deepcopy(extra))
+        M.add_node(ns[0], extra)
+        G.add_node(ns[-1], route2=(1, {'k': [2]}))
+        M.add_node(ns[-1], {'route2': (1, {'k': [2]})})
+        G.graph['gt'] = ('x', [1, {'y': []}])
     M.graph = copy.deepcopy(dict(G.graph))
     probes = M.probes()
     nodes = d.nodes
